@@ -444,6 +444,9 @@ func (fx *FuncCtx) execStmt(st *State, s ast.Stmt) Flow {
 	case *ast.ReturnStmt:
 		fx.execReturn(st, x)
 		return Flow{}
+	case *ast.SendStmt:
+		fx.eval(st, x.Value)
+		return Flow{normal: st}
 	case *ast.GoStmt:
 		return fx.execGo(st, x)
 	case *ast.DeferStmt:
@@ -480,6 +483,19 @@ func (fx *FuncCtx) execReturn(st *State, x *ast.ReturnStmt) {
 	}
 	if fx.isDead(st) {
 		return
+	}
+	if len(fx.defers) > 0 {
+		fx.runDefers(st)
+		if fx.isDead(st) {
+			return
+		}
+		if len(x.Results) == 0 {
+			// named results may have been updated by deferred closures
+			res = nil
+			for _, r := range fx.results {
+				res = append(res, fx.lookupVar(st, r, nil))
+			}
+		}
 	}
 	fx.exits = append(fx.exits, &Exit{kind: "return", st: st, results: res, node: x})
 }
